@@ -1209,8 +1209,16 @@ impl PhysicalOperator for HashJoinExec {
                 }
 
                 // Skip expensive generic hash table build when vectorized or i64 fast path is available
-                let hash_table = if vectorized_ht.is_some()
-                    || (i64_hash_table.is_some() && can_skip_generic_ht)
+                // — except for filtered Semi/Anti joins: their probes (the generic loop of
+                // probe_hash_table for <= 1000 probe rows, and probe_semi_anti_parallel whenever
+                // the vectorized table cannot serve single-i64 point lookups with a compiled
+                // filter) read their candidates from THIS table. Leaving it empty made every such
+                // probe row find no candidate: Semi returned nothing, Anti every left row.
+                let filtered_semi_anti = self.filter.is_some()
+                    && matches!(self.join_type, JoinType::Semi | JoinType::Anti);
+                let hash_table = if !filtered_semi_anti
+                    && (vectorized_ht.is_some()
+                        || (i64_hash_table.is_some() && can_skip_generic_ht))
                 {
                     HashMap::new()
                 } else {
